@@ -86,6 +86,13 @@ def ev(e, env):
             st = ev(e.slice.step, env) if e.slice.step is not None else None
             return base[lo:hi:st]
         return base[ev(e.slice, env)]
+    if isinstance(e, (ast.ListComp, ast.GeneratorExp)) and len(e.generators) == 1 and not e.generators[0].ifs:
+        # one element per element of the iterated sequence (the elements themselves are opaque)
+        it = ev(e.generators[0].iter, env)
+        try:
+            return [object()] * len(it)
+        except TypeError:
+            raise Unknown(src)
     if isinstance(e, ast.IfExp):
         return ev(e.body, env) if ev(e.test, env) else ev(e.orelse, env)
     raise Unknown(src)
